@@ -78,7 +78,7 @@ def no_dropped_results(ctx, prog, rule, exceptions=DROP_EXCEPTIONS, floor=600):
             cls, detail = classify_result_use(f, bi, t)
             stats[cls] += 1
             if cls in ("dropped", "tested-only"):
-                if p in exceptions and cls == "tested-only":
+                if p in exceptions:
                     ctx.ob(rule, "named-exception/%s" % short(p), True, "%s: %s — %s" % (short(callee_of(t)), detail, exceptions[p]), where=f.file_line(bi), nontrivial=False)
                     continue
                 ctx.ob(rule, "dropped/%s/%s" % (short(p), short(callee_of(t))), False,
@@ -100,47 +100,68 @@ def _is_raw_transfer(c):
     return bool(m)
 
 
+def short_transfer_loop(f, bi, loops=None):
+    """facts about the raw Read::read / Write::write call in block bi, independent of how the loop is spelled:
+    in a loop; its Result is propagated with `?`; a zero count leaves the loop (`if n == 0 { break }`, `match n { 0 =>
+    break, .. }`, `while read(..)? != 0`); the count advances the buffer (`&mut buf[n..]`, `buf.split_at_mut(n).1`)."""
+    loops = loops if loops is not None else natural_loops(f)
+    mine = [h for h, body in loops.items() if bi in body]
+    br = branch_of_call(f, bi)
+    zero_exit = advance = False
+    if br and mine:
+        body = loops[min(mine, key=lambda h: len(loops[h]))]
+        R = Resolver(f)
+
+        def is_count(t):
+            t = strip(t)
+            while t[0] == "cast":
+                t = strip(t[2])
+            return t[0] == "call" and len(t) > 3 and t[3] == bi
+        for sb in body:
+            tt = f.blocks[sb]["term"]
+            if tt["k"] != "switch":
+                continue
+            dl = op_place(tt["discr"])
+            d = strip(R.place(dl)) if dl else None
+            if d is None:
+                continue
+            e = switch_edges(f, sb)
+            zero_succ = None
+            if d[0] == "binop" and d[1] in ("Eq", "Ne", "Gt", "Lt") and 0 in (const_val(d[2]), const_val(d[3])):
+                other = d[3] if const_val(d[2]) == 0 else d[2]
+                if is_count(other):
+                    true_succ, false_succ = e.get("1", e["otherwise"]), e.get("0")
+                    zero_succ = true_succ if d[1] == "Eq" else false_succ      # n != 0, n > 0, 0 < n are false for n == 0
+            elif is_count(d):
+                zero_succ = e.get("0")
+            if zero_succ is not None and zero_succ not in body:
+                zero_exit = True
+        for sb in body:
+            for st in f.blocks[sb]["stmts"]:
+                rv = st["rv"]
+                if is_variant_agg(rv, "ops::RangeFrom", "RangeFrom") and is_count(R.operand(rv["ops"][0])):
+                    advance = True
+            tt = f.blocks[sb]["term"]
+            if tt["k"] == "call" and (callee_of(tt).endswith("::split_at_mut") or callee_of(tt).endswith("::split_at")) and len(tt["args"]) == 2 and is_count(R.operand(tt["args"][1])):
+                advance = True
+    return {"in_loop": bool(mine), "propagated": br is not None, "zero_exit": zero_exit, "advance": advance}
+
+
 def raw_transfer_discipline(ctx, prog, rule, floors=True):
     sites = 0
     for p, f in sorted(prog.fns.items()):
+        loops = None
         for bi, t in f.calls(lambda c, t: _is_raw_transfer(c)):
             sites += 1
             ctx.fn_seen(f)
             c = callee_of(t)
-            loops = natural_loops(f)
-            mine = [h for h, body in loops.items() if bi in body]
-            br = branch_of_call(f, bi)
-            zero_exit = False
-            advance = False
-            if br and mine:
-                body = loops[min(mine, key=lambda h: len(loops[h]))]
-                # count = Continue payload; look for switch on (count ==/!= 0) with an edge leaving the loop
-                R = Resolver(f)
-                for sb in body:
-                    tt = f.blocks[sb]["term"]
-                    if tt["k"] != "switch":
-                        continue
-                    dl = op_place(tt["discr"])
-                    d = strip(R.place(dl)) if dl else None
-                    if d and d[0] == "binop" and d[1] in ("Eq", "Ne") and 0 in (const_val(d[2]), const_val(d[3])):
-                        other = strip(d[3] if const_val(d[2]) == 0 else d[2])
-                        if other[0] == "call" and other[3] == bi or (other[0] == "ok" and False):
-                            e = switch_edges(f, sb)
-                            if any(s not in body for s in e.values()):
-                                zero_exit = True
-                # advance: the count indexes the buffer (RangeFrom{count}) inside the loop
-                for sb in body:
-                    for st in f.blocks[sb]["stmts"]:
-                        rv = st["rv"]
-                        if is_variant_agg(rv, "ops::RangeFrom", "RangeFrom"):
-                            tr = strip(R.operand(rv["ops"][0]))
-                            if tr[0] == "call" and tr[3] == bi:
-                                advance = True
+            loops = loops if loops is not None else natural_loops(f)
+            r = short_transfer_loop(f, bi, loops)
             on_device = c in RAW  # generic T: the raw device
-            ok = bool(mine) and br is not None and zero_exit and (advance or not on_device)
+            ok = r["in_loop"] and r["propagated"] and r["zero_exit"] and (r["advance"] or not on_device)
             ctx.ob(rule, "raw-transfer/%s/%s" % (short(p), short(c)), ok,
                    "%s: in loop=%s, error propagated=%s, zero count leaves the loop=%s, count advances the buffer=%s%s" % (
-                       c, bool(mine), br is not None, zero_exit, advance, "" if on_device else " (self-advancing reader)"), where=f.file_line(bi))
+                       c, r["in_loop"], r["propagated"], r["zero_exit"], r["advance"], "" if on_device else " (self-advancing reader)"), where=f.file_line(bi))
     if not floors:
         return
     ctx.floor(rule, "raw read/write call sites", sites, 1, semantic=False)
